@@ -2,6 +2,10 @@ SPECIFICATION Spec
 CONSTANTS
   K = 2
   Deviations = {}
+  KindSet = {"ok", "invalid", "declared", "undeclared", "plain"}
+  CodecSet = {"json", "text"}
+  BodySet = {"object", "bytes"}
+  SerialSet = {TRUE, FALSE}
 INVARIANTS NoConflict Echo
 PROPERTIES Termination
 CHECK_DEADLOCK FALSE
